@@ -128,6 +128,11 @@ def handleWith (c : Cfg) (o : Outcome α) (f : List α → PubOutcome) : List (E
     | .returns outs _ => f outs
     | .panics _ => .accept)
 
+/-- a settlement the handler makes from a helper goroutine, concurrently with its return: its settle call lands
+    somewhere among the effects of `handleMessage` – after the first `pos` of them -/
+def handleRace (c : Cfg) (r : Result α) (p : PubOutcome) (s : Settle) (pos : Nat) : List (Effect α) :=
+  (handle c ⟨none, r⟩ p).take pos ++ selfEff (some s) ++ (handle c ⟨none, r⟩ p).drop pos
+
 /-! ### settlement seen by the subscriber: `Wm.Ack` over the settle effects -/
 
 def settleOp : Effect α → Option Ack.Op
